@@ -83,6 +83,11 @@ fn chk_sa_op(toks: &[&str]) -> Result<(), String> {
             if dec(&rs)? != dec(&ra)? {
                 return Err("directories written by the sync and async writers decode differently".into());
             }
+            // what either family writes must be a complete stream for an independent decoder, with the same plain bytes
+            let plain = |r: &str, who: &str| spec::codec_decompress(comp_code(c) as u8, &unhex_bytes(r.split(' ').nth(1).unwrap_or("-"))).map_err(|e| format!("the {who} writer's output is not a complete {} stream: {e}", toks[2]));
+            if plain(&rs, "sync")? != plain(&ra, "async")? {
+                return Err("sync and async directory writers produce different plain bytes".into());
+            }
             Ok(())
         }
         "wdirs" => {
@@ -138,6 +143,14 @@ fn chk_codec(c: Compression, kind: u64, size: usize, seed: u64) -> Result<(), St
     // the size law the Coq development assumes of a codec (Oracles.codec_size)
     if z.len() > 2 * data.len() + 1024 {
         return Err(format!("compress_all turned {} bytes into {} (> 2n + 1024: the codec size law of the model does not hold)", data.len(), z.len()));
+    }
+    // a failed call (truncated stream) must leave no trace in the next one
+    if z.len() > 4 && c != Compression::None {
+        let cut = &z[..z.len() - 1 - (seed as usize % (z.len() / 2).max(1)).min(z.len() - 2)];
+        let _ = pmtiles2::util::decompress_all(c, cut);
+        if pmtiles2::util::decompress_all(c, &z).map_err(|e| format!("decompress_all after a failed call: {e}"))? != data {
+            return Err("decompress_all returns other bytes after a preceding call failed on a truncated stream".into());
+        }
     }
     // the library decodes what the upstream library produced
     let up = spec::codec_compress(code, &data);
